@@ -28,6 +28,7 @@ def check(prog, run):
     run.rule("R2", "sink-guard: every call path from an externally callable function to the sink helper passes `flag = true`, dominated by the flag test whose true edge leaves without writing")
     run.rule("R3", "typestate: the flag is only ever stored `true` through a reference; every frame-writing API entry reaches a success exit only on the flag-false edge")
     run.rule("R4", "byte counter: stored only inside the helper, value = counter (+) len(buf) of the buffer passed to write_all; all helper call sites pass (sink field, counter field) of the same object")
+    run.rule("R6", "duration statistic: the end time of a track whose presentation times are not monotone in queue order is the maximum over every queued sample")
     run.rule("R5", "statistics provenance: video_frames<-len(video queue), audio_frames<-len(audio queue), bytes_written<-counter, duration<-pure function of both queues; built only on the Ok edge of finalize")
     try:
         cx = common.Ctx(prog)
@@ -374,6 +375,27 @@ def r5(cx, run):
                         npair += 1
                         run.check(ds == {pairing.get(q)}, "R5", key + " end-time pairing " + q, "end of `%s` uses its own last delta `%s`" % (q, pairing.get(q)),
                                   "the end time of queue `%s` is computed with %s, but the delta its writer maintains is `%s`" % (q, sorted(ds), pairing.get(q)), mir.loc_of(ct))
+        # R6: the end time of a queue whose presentation times are not monotone in queue order must range over every sample
+        mono = queue_monotone_fields(cx, (vq, aq))
+        for c in sorted(callees):
+            for f in sorted(g.reach([c])):
+                fb = u.bodies[f]
+                for cbb, ct, cname, cinfo in mir.calls(fb):
+                    if cname not in u.bodies:
+                        continue
+                    args = [sym.expr(fb, a) for a in ct["args"]]
+                    qs = {q for q in (vq, aq) for a in args for y in sym.walk(a) if isinstance(y, tuple) and len(y) > 1 and y[0] in ("load", "refplace") and y[1] == "arg1." + q}
+                    if len(qs) != 1:
+                        continue
+                    q = next(iter(qs))
+                    sel = selector_field_reads(u, g, cname, "pts")
+                    if mono.get(q) is None:
+                        run.bad("R6", key + " monotone-fields " + q, "cannot determine which timestamp the writer of `%s` keeps monotone" % q, mir.loc_of(ct))
+                    elif "pts" in mono[q]:
+                        run.ok("R6", key + " end-time " + q, "presentation times of `%s` are monotone in queue order: the last sample ends last" % q, mir.loc_of(ct))
+                    else:
+                        run.check(not sel, "R6", key + " end-time " + q, "maximum over every sample of `%s` (its presentation times are not monotone in queue order: writer enforces %s only)" % (q, sorted(mono[q])),
+                                  "the end time of `%s` is taken from a single selected sample (%s), but only %s is monotone in queue order: with reordered (B-frame) video the sample presented last is not the one queued last" % (q, ", ".join(sel), sorted(mono[q])), mir.loc_of(ct))
         if len(pairing) == 2 and callees:
             run.check(npair >= 2, "R5", key + " end-time pairing sites", "%d queue/last-delta pairings found in the duration function" % npair,
                       "could not find where the duration function combines each queue with a last-delta field (found %d)" % npair, mir.loc_of(st))
@@ -384,6 +406,50 @@ def r5(cx, run):
         good = any(t["cont"] in dom[bb] for t in ts)
         run.check(good, "R5", key + " after-ok-finalize", "statistics built only on the Continue edge of `finalize(..)?`",
                   "MuxerStats is built on a path that does not pass the Ok edge of the finalising call", mir.loc_of(st))
+
+
+def queue_monotone_fields(cx, qs):
+    from .. import filemodel as FM
+    out = {}
+    for q in qs:
+        try:
+            out[q] = set(FM.monotone_fields(cx, q)[0])
+        except Exception:
+            out[q] = None
+    return out
+
+
+def selector_field_reads(u, g, fn, field):
+    """reads of `<element>.<field>` in fn where the element is a single sample picked by last/first/get/index of a slice
+    parameter (as opposed to the element of an iteration over it)"""
+    out = []
+    b = u.bodies[fn]
+    selectors, iterated = {}, set()
+    for bb, t, name, info in mir.calls(b):
+        last = mir.norm(name or "").split("::")[-1]
+        if not t["args"]:
+            continue
+        a0 = sym.expr(b, t["args"][0])
+        roots = {y[1] for y in sym.walk(a0) if isinstance(y, tuple) and len(y) > 1 and y[0] == "arg"} | \
+                {int(str(y[1])[3:].split(".")[0]) for y in sym.walk(a0) if isinstance(y, tuple) and len(y) > 1 and y[0] in ("load", "refplace") and str(y[1]).startswith("arg") and str(y[1])[3:].split(".")[0].isdigit()}
+        if last in ("last", "first", "last_mut", "first_mut", "get", "index", "get_unchecked"):
+            for r in roots:
+                selectors.setdefault(r, []).append(last)
+        if last in ("iter", "into_iter", "iter_mut"):
+            iterated |= roots
+    for blk in b["blocks"]:
+        if blk["cleanup"]:
+            continue
+        for st in blk["stmts"]:
+            if st["k"] != "assign":
+                continue
+            e = sym.expr_rv(b, st["rv"])
+            for y in sym.walk(e):
+                if isinstance(y, tuple) and len(y) > 1 and y[0] == "load" and isinstance(y[1], str) and y[1].endswith(".[]." + field) and y[1].startswith("arg"):
+                    r = y[1][3:].split(".")[0]
+                    if r.isdigit() and int(r) in selectors and int(r) not in iterated:
+                        out.append("%s(..).%s in %s" % ("/".join(sorted(set(selectors[int(r)]))), field, mir.norm(fn).split("::")[-1]))
+    return sorted(set(out))
 
 
 def last_delta_pairing(cx, qs):
